@@ -322,8 +322,11 @@ def _run_lines(exe, lines, timeout, label, extra_env=None):
     while idx < n:
         chunk = lines[idx:]
         data = ("\n".join(chunk) + "\n").encode("utf-8")
+        # `timeout` is the allowance for one stuck case; a shard also gets time for the work it holds
+        # (thorough-tier shards hold thousands of lines and the machine may be busy)
+        eff_timeout = timeout + 0.03 * len(chunk) + len(data) / 200000.0
         try:
-            p = subprocess.run([exe], input=data, stdout=subprocess.PIPE, stderr=subprocess.DEVNULL, timeout=timeout, env=e)
+            p = subprocess.run([exe], input=data, stdout=subprocess.PIPE, stderr=subprocess.DEVNULL, timeout=eff_timeout, env=e)
             text = p.stdout.decode("utf-8", "replace")
             outs = text.splitlines()
             if text and not text.endswith("\n"):
